@@ -131,6 +131,8 @@ type Gate struct {
 	noHavoc      bool
 	seq          int
 	allocRC      map[*E]Ref      // reach condition of each allocation
+	unescaped    map[*E]bool     // objects of the function under evaluation that only its return hands out
+	memRoot      map[string]*E   // root object of a heap memory key
 	Funcs        map[string]bool // functions evaluated (incl. inlined)
 }
 
@@ -660,6 +662,12 @@ func (f *frame) store(addr, val *E, rc Ref, in ssa.Instruction) {
 		mrc = True
 	}
 	f.mem.m[k] = u.ITE(mrc, val, old)
+	if !local {
+		if f.g.memRoot == nil {
+			f.g.memRoot = map[string]*E{}
+		}
+		f.g.memRoot[k] = root
+	}
 	f.storeFields(addr, val, mrc)
 	f.addEffect(Effect{Cond: rc, Kind: "store", Addr: addr, Val: val, Pos: in.Pos(), Ins: in, Local: local})
 }
@@ -1006,6 +1014,9 @@ func (f *frame) call(in ssa.Instruction, c *ssa.CallCommon, rc Ref, typ types.Ty
 	if rc != False && !f.g.noHavoc {
 		for k, old := range f.mem.m {
 			if strings.HasPrefix(k, "H:") {
+				if r := f.g.memRoot[k]; r != nil && f.g.unescaped[r] {
+					continue // nobody but this function can reach the object yet
+				}
 				f.mem.m[k] = u.ITE(rc, u.mk("havoc", f.g.fresh("h"), old.Typ), old)
 			}
 		}
@@ -1122,6 +1133,12 @@ func (f *frame) instr(b *ssa.BasicBlock, in ssa.Instruction, rc Ref) {
 			tag = "init!" + f.fn.Pkg.Pkg.Path() + ":" + tag
 		}
 		f.env[in] = u.mk("alloc", tag+":"+in.Name()+kind, in.Type())
+		if kind == "/heap" && len(f.g.stack) == 1 && allocUnescapedUntilReturn(in) {
+			if f.g.unescaped == nil {
+				f.g.unescaped = map[*E]bool{}
+			}
+			f.g.unescaped[f.env[in]] = true
+		}
 		if f.g.allocRC == nil {
 			f.g.allocRC = map[*E]Ref{}
 		}
@@ -1317,7 +1334,13 @@ func derefStruct(t types.Type) *types.Struct {
 // functions are helpers outside the vocabulary).
 var curProg *Prog
 
-func allocIsLocal(a *ssa.Alloc) bool {
+func allocIsLocal(a *ssa.Alloc) bool { return allocKept(a, false) }
+
+// allocUnescapedUntilReturn: the object is handed to nobody before the function
+// returns it, so no callee can reach it (its fields survive calls made meanwhile).
+func allocUnescapedUntilReturn(a *ssa.Alloc) bool { return allocKept(a, true) }
+
+func allocKept(a *ssa.Alloc, allowReturn bool) bool {
 	refs := a.Referrers()
 	if refs == nil {
 		return false
@@ -1375,6 +1398,10 @@ func allocIsLocal(a *ssa.Alloc) bool {
 				// captured by a closure that is only called directly (or
 				// deferred) and that only loads/stores the cell
 				if depth != 0 || !closureKeepsLocal(r, v) {
+					return false
+				}
+			case *ssa.Return:
+				if !allowReturn || depth != 0 {
 					return false
 				}
 			default:
